@@ -131,6 +131,12 @@ func (P *Prog) symD(v ssa.Value, d int) string {
 			case *ssa.Global:
 				return "global:" + a.Name()
 			case *ssa.IndexAddr:
+				// an element of a local array that merely carries a value
+				if _, isLocal := a.X.(*ssa.Alloc); isLocal {
+					if r := resolveLocal(x); r != ssa.Value(x) {
+						return P.symD(r, d+1)
+					}
+				}
 				return P.symD(a.X, d+1) + "[" + P.symD(a.Index, d+1) + "]"
 			case *ssa.FreeVar:
 				c := cellOf(x)
